@@ -333,9 +333,10 @@ Section Unfold.
         | NHtml owner val trimL trimR after before =>
             match top_frame st with
             | Ok fr =>
-                (* the block options rewrite the tokens of the template that is executed itself *)
+                (* the block options of the executed template rewrite its own tokens and those of
+                   every template it extends (fix D42; before, only its own) *)
                 let entry := last (f_chain fr) (Tpl 0 [] true [] [] [] None false false) in
-                let mine := tpl_id entry =? owner in
+                let mine := existsb (fun t => tpl_id t =? owner) (f_chain fr) in
                 let v1 := if mine && tpl_lstrip entry && before
                           then rev (let fix dropws (l : str) := match l with
                                                                 | b :: l' => if (b =? 9) || (b =? 32) then dropws l' else l
